@@ -114,6 +114,16 @@ namespace ip {
 
 		if (m_queue.empty()) return;
 
+		// this may be the completion of a wait that was started for an entry
+		// which cancel() has removed since; what is at the front now may not
+		// be due yet
+		if (m_queue.front().completion_time > chrono::high_resolution_clock::now())
+		{
+			m_timer.expires_at(m_queue.front().completion_time);
+			m_timer.async_wait(aux::make_malloc(std::bind(&basic_resolver::on_lookup, this, _1)));
+			return;
+		}
+
 		typename queue_t::value_type v = std::move(m_queue.front());
 		m_queue.erase(m_queue.begin());
 
